@@ -336,6 +336,10 @@ def run_check(pid, tier, jobs, meta, seed=0, procs=None, job_timeout=None, extra
     for i, j in enumerate(jobs):
         j.setdefault("seed", seed * 1000 + i)
         j.setdefault("opts", {})
+    if os.environ.get("VERIF_ONLY_JOBS"):  # development aid: run a subset of the jobs (evidence then describes that subset only)
+        import re
+
+        jobs = [j for j in jobs if re.search(os.environ["VERIF_ONLY_JOBS"], j["name"])]
     known = load_known()
     kf = {(f["property"], f["key"]): f for f in known.get("findings", [])}
     ctx = mp.get_context("fork")
